@@ -38,6 +38,10 @@ class Interp(object):
         self.opaque_funcs = set()   # qualnames never inlined
         self.call_hook = None       # fn(interp, st, fv, args, kwargs, line) -> results | None
         self.log_names = ('LOG', 'log', 'logging')
+        self.while_unroll = WHILE_UNROLL
+        self.merge_loops = False
+        self.merge_call_prefixes = ()
+        self.base_counter = 0
 
     # ------------------------------------------------------------------ helpers
     def _count(self, n=1):
@@ -448,6 +452,8 @@ class Interp(object):
                 out.append(('raise', v, s))
             else:
                 raise AnalysisError('break/continue escaped %s' % f.qualname)
+        if self.merge_call_prefixes and f.qualname.startswith(self.merge_call_prefixes):
+            out = merge_outcomes([o for o in out if o[0] != 'raise']) + [o for o in out if o[0] == 'raise']
         return out
 
     def eval_default(self, d, f):
@@ -698,11 +704,14 @@ class Interp(object):
                 elif not t:
                     out.extend(self.exec_block(stmt.orelse, s1))
                 else:
-                    if n >= WHILE_UNROLL:
+                    if n >= self.while_unroll:
                         s1.flags.add('while-truncated')
                         out.append(('next', None, s1))
                         continue
-                    for k, v, s2 in self.exec_block(stmt.body, s1):
+                    body = self.exec_block(stmt.body, s1)
+                    if self.merge_loops:
+                        body = merge_outcomes(body, self.base_counter)
+                    for k, v, s2 in body:
                         if k in ('next', 'continue'):
                             loop(s2, n + 1)
                         elif k == 'break':
@@ -710,6 +719,8 @@ class Interp(object):
                         else:
                             out.append((k, v, s2))
         loop(st, 0)
+        if self.merge_loops:
+            out = merge_outcomes(out, self.base_counter)
         return out
 
     def ex_For(self, stmt, st):
@@ -735,7 +746,10 @@ class Interp(object):
                         if k2 != 'next':
                             nxt.append((k2, v2, s2))
                             continue
-                        for k3, v3, s3 in self.exec_block(stmt.body, s2):
+                        body = self.exec_block(stmt.body, s2)
+                        if self.merge_loops:
+                            body = merge_outcomes(body, self.base_counter)
+                        for k3, v3, s3 in body:
                             if k3 == 'continue':
                                 nxt.append(('next', None, s3))
                             elif k3 == 'break':
@@ -750,6 +764,8 @@ class Interp(object):
                     out.append(('next', None, s1))
                 else:
                     out.append((k, v, s1))
+            if self.merge_loops:
+                out = merge_outcomes(out, self.base_counter)
             return out
         return self._vals(self.ev(stmt.iter, st), do)
 
@@ -852,6 +868,115 @@ class Interp(object):
         if not st.frames:
             st.frames.append({})
         return self.call(fv, args, kwargs, st)
+
+
+def _fpv(v):
+    if isinstance(v, Const):
+        return ('c', repr(v.value))
+    if isinstance(v, Obj):
+        return ('o', v.oid)
+    if isinstance(v, TupleV):
+        return ('t',) + tuple(_fpv(x) for x in v.items)
+    if isinstance(v, V):
+        return ('v', type(v).__name__, v.desc())
+    return ('p', repr(v))
+
+
+def fingerprint(kind, val, st, base_counter=None):
+    """Observable part of an outcome: control, actions, fields of objects that existed
+    before the event started (FSM, peering, protocol, timers, old containers).  Locals and
+    objects allocated during the event are joined pointwise when outcomes are merged."""
+    heap = []
+    for oid in sorted(st.heap):
+        h = st.heap[oid]
+        if h.born > st.base:
+            heap.append((oid, h.kind))
+        elif h.kind == 'inst':
+            heap.append((oid, 'inst', tuple(sorted((k, _fpv(v)) for k, v in h.fields.items()))))
+        elif h.kind == 'list':
+            heap.append((oid, 'list', h.open, tuple(_fpv(v) for v in h.items)))
+        else:
+            heap.append((oid, 'dict', h.open, tuple(sorted((repr(k), _fpv(v)) for k, v in h.items.items()))))
+    frames = tuple(getattr(fr.get('$func'), 'qualname', None) for fr in st.frames)
+    acts = tuple(a.short() for a in st.actions)
+    exc = None
+    if kind == 'raise' and isinstance(val, Obj) and val.oid in st.heap:
+        exc = tuple(sorted((k, _fpv(v)) for k, v in st.heap[val.oid].fields.items()
+                           if isinstance(v, Const)))
+    return (kind, _fpv(val) if val is not None else None, exc, tuple(heap), frames, acts,
+            tuple(sorted(st.flags)))
+
+
+def _join(name, a, b):
+    if _fpv(a) == _fpv(b):
+        return a
+    kind = getattr(a, 'kind', None) if getattr(a, 'kind', None) == getattr(b, 'kind', None) else None
+    return Opaque('join(%s)' % name, kind)
+
+
+def merge_outcomes(outs, base_counter=None):
+    """Join outcomes that agree on everything observable; intervals are joined (hull),
+    disagreeing atoms dropped, locals / young objects joined pointwise."""
+    groups = {}
+    order = []
+    for kind, val, st in outs:
+        fp = fingerprint(kind, val, st)
+        if fp not in groups:
+            groups[fp] = [kind, val, st, 1]
+            order.append(fp)
+            continue
+        g = groups[fp]
+        m = g[2]
+        g[3] += 1
+        for name in set(m.cons) | set(st.cons):
+            a = m.cons.get(name)
+            b = st.cons.get(name)
+            if a is None or b is None:
+                m.cons[name] = a or b
+                continue
+            m.cons[name] = (min(a[0], b[0]), max(a[1], b[1]), a[2] & b[2])
+        for k in list(m.atoms):
+            if st.atoms.get(k) != m.atoms[k]:
+                del m.atoms[k]
+        n = 0
+        while n < len(m.path) and n < len(st.path) and m.path[n] == st.path[n]:
+            n += 1
+        m.path = m.path[:n]
+        m.flags.add('merged')
+        for fr, fo in zip(m.frames, st.frames):
+            for k in set(fr) | set(fo):
+                if k != '$func':
+                    if k in fr and k in fo:
+                        fr[k] = _join(k, fr[k], fo[k])
+                    else:
+                        fr[k] = Opaque('join(%s)' % k)
+        for oid, h in m.heap.items():
+            if h.born <= m.base:
+                continue
+            o = st.heap[oid]
+            if h.kind == 'inst':
+                for k in set(h.fields) | set(o.fields):
+                    if k in h.fields and k in o.fields:
+                        h.fields[k] = _join('%s.%s' % (oid, k), h.fields[k], o.fields[k])
+                    else:
+                        h.fields[k] = Opaque('join(%s.%s)' % (oid, k))
+            elif h.kind == 'list':
+                if len(h.items) != len(o.items) or any(_fpv(x) != _fpv(y) for x, y in zip(h.items, o.items)):
+                    h.open = True
+                    h.items = []
+                h.open = h.open or o.open
+            else:
+                keep = {k: v for k, v in h.items.items() if k in o.items and _fpv(o.items[k]) == _fpv(v)}
+                if len(keep) != len(h.items) or len(keep) != len(o.items):
+                    h.open = True
+                h.items = keep
+                h.open = h.open or o.open
+        m.counter = max(m.counter, st.counter)
+        m.syminfo.update(st.syminfo)
+        for k in list(m.lin):
+            if st.lin.get(k) != m.lin[k]:
+                del m.lin[k]
+    return [(groups[fp][0], groups[fp][1], groups[fp][2]) for fp in order]
 
 
 def copy_load(t):
